@@ -25,7 +25,7 @@ import (
 )
 
 func main() {
-	Main(map[string]Runner{"pool": runPool, "priority": runPriority, "race": runRace, "race-child": runRaceChild, "content": runContent})
+	Main(map[string]Runner{"pool": runPool, "priority": runPriority, "race": runRace, "race-child": runRaceChild, "content": runContent, "batches": runBatches})
 }
 
 func errClassPool(err error) int64 {
@@ -164,7 +164,8 @@ func (r *poolRun) checkAll(before map[types.Address]acctView, touched types.Addr
 	after := r.views()
 	r.observeViews(r.what, r.viewAccounts())
 	for a, v := range after {
-		r.out.Oracle(linkedOnTop(v), "pool-single-linked-chain", Tup(a.String(), I64(int64(len(v.confirmed))), I64(int64(len(v.pool)))))
+		r.out.Oracle(linkedOnTop(v), "pool-single-linked-chain", Tup(a.String(), I64(int64(len(v.confirmed))), I64(int64(len(v.pool))), r.what))
+		r.clauseNow(a, v, r.what)
 		if addOp {
 			r.out.Oracle(sameHashes(v.confirmed, before[a].confirmed), "confirmed-never-displaced", Tup(a.String()))
 			if a != touched {
@@ -238,6 +239,8 @@ func poolHistory(rng *rand.Rand, out *Out) {
 		switch {
 		case k >= 91 && k < 96: // competing producers (compete.go)
 			r.competingProducers()
+		case k >= 86 && k < 91: // the pillar race: own momentum generated, the pool moves on, own momentum inserted (pillarrace.go)
+			r.pillarRace()
 		case k < 42: // fast-forward insert, sometimes a contract call that produces contract sends later
 			var tx *nom.AccountBlockTransaction
 			var err error
@@ -407,10 +410,11 @@ func poolHistory(rng *rand.Rand, out *Out) {
 		case k < 91: // momentum
 			r.lis.before, r.lis.context = before, "momentum"
 			r.what = fmt.Sprintf("momentum %d inserted", nd.FrontierHeight()+1)
-			nd.Momentum()
+			r.produceNext("momentum step of a pool history")
 			r.lis.before = nil
 			fm, _ := nd.Ch.GetFrontierMomentumStore().GetFrontierMomentum()
 			after := r.checkAll(before, types.Address{}, false)
+			r.contentVerifies("after a momentum of a pool history")
 			counts := map[types.Address]int{}
 			for _, hd := range fm.Content {
 				counts[hd.Address]++
